@@ -15,35 +15,35 @@ open Aidl.Props.LrInv Aidl.Props.JavadocTotal
 variable (env : Env) (I : List Char)
 
 def Safe {α} (x : M α) (P : α → Prop) : Prop :=
-  ∀ ds, match (x.run env).run ds with
-    | .ok (a, _) => P a
+  ∀ ds, DiagsLc env ds → match (x.run env).run ds with
+    | .ok (a, ds') => P a ∧ DiagsLc env ds'
     | .error p => p.kind ≠ .bounds
 
-theorem Safe.pure {α} {P : α → Prop} (a : α) (h : P a) : Safe env (pure a : M α) P := fun _ => h
+theorem Safe.pure {α} {P : α → Prop} (a : α) (h : P a) : Safe env (pure a : M α) P := fun _ hd => ⟨h, hd⟩
 
 theorem Safe.bad {α} {P : α → Prop} (k : PanicKind) (m : String) (h : k ≠ .bounds) : Safe env (bad k m : M α) P :=
-  fun _ => h
+  fun _ _ => h
 
 theorem Safe.bind {α β} {P : α → Prop} {Q : β → Prop} {x : M α} {f : α → M β}
     (hx : Safe env x P) (hf : ∀ a, P a → Safe env (f a) Q) : Safe env (x >>= f) Q := by
-  intro ds
-  have h1 := hx ds
-  show match ((x >>= f).run env).run ds with | .ok (a, _) => Q a | .error p => p.kind ≠ .bounds
+  intro ds hd
+  have h1 := hx ds hd
+  show match ((x >>= f).run env).run ds with | .ok (a, ds') => Q a ∧ DiagsLc env ds' | .error p => p.kind ≠ .bounds
   simp only [ReaderT.run_bind, StateT.run_bind]
   cases hr : (x.run env).run ds with
   | error p => rw [hr] at h1; exact h1
   | ok r =>
     obtain ⟨a, ds'⟩ := r
     rw [hr] at h1
-    exact hf a h1 ds'
+    exact hf a h1.1 ds' h1.2
 
 theorem Safe.mono {α} {P Q : α → Prop} {x : M α} (hx : Safe env x P) (h : ∀ a, P a → Q a) : Safe env x Q := by
-  intro ds
-  have := hx ds
+  intro ds hd
+  have := hx ds hd
   revert this
   cases (x.run env).run ds with
   | error p => exact id
-  | ok r => exact h r.1
+  | ok r => exact fun hh => ⟨h r.1 hh.1, hh.2⟩
 
 theorem Safe.map {α β} {P : α → Prop} {Q : β → Prop} {x : M α} {g : α → β}
     (hx : Safe env x P) (h : ∀ a, P a → Q (g a)) : Safe env (g <$> x) Q := by
@@ -51,7 +51,13 @@ theorem Safe.map {α β} {P : α → Prop} {Q : β → Prop} {x : M α} {g : α 
   rw [this]
   exact Safe.bind env hx (fun a ha => Safe.pure env _ (h a ha))
 
-theorem Safe.pushDiag (d : Diag) : Safe env (pushDiag d) (fun _ => True) := fun _ => trivial
+theorem Safe.pushDiag (d : Diag) (hd : DiagLc env d) : Safe env (pushDiag d) (fun _ => True) := by
+  intro ds hds
+  refine ⟨trivial, ?_⟩
+  intro x hx
+  rcases List.mem_append.mp hx with h | h
+  · exact hds x h
+  · simp only [List.mem_cons, List.mem_nil_iff, or_false] at h; rw [h]; exact hd
 
 theorem Safe.mapM {α β} {P : β → Prop} (f : α → M β) :
     ∀ (l : List α), (∀ a ∈ l, Safe env (f a) P) → Safe env (l.mapM f) (fun r => ∀ b ∈ r, P b) := by
@@ -75,36 +81,40 @@ theorem Safe.mapM {α β} {P : β → Prop} (f : α → M β) :
 
 variable {env I}
 
-theorem safe_mkPos (hE : EnvOk env I) {n : Nat} (h : Bd I n) : Safe env (mkPos n) (fun _ => True) := by
-  intro ds
+theorem safe_mkPos (hE : EnvOk env I) {n : Nat} (h : Bd I n) : Safe env (mkPos n) (PosGood env I) := by
+  intro ds hd
   have := hE.lineCol n h
   have he := Aidl.Props.PL.mkPos_eq env ds n
   unfold Aidl.Props.PL.runM at he
   rw [he]
   cases hl : env.lineCol n with
   | none => rw [hl] at this; cases this
-  | some lc => trivial
+  | some lc => exact ⟨⟨h, hl⟩, hd⟩
 
 theorem safe_mkRange (hE : EnvOk env I) {a b : Nat} (ha : Bd I a) (hb : Bd I b) :
-    Safe env (mkRange a b) (fun _ => True) := by
+    Safe env (mkRange a b) (RangeGood env I) := by
   unfold mkRange
-  refine Safe.bind env (safe_mkPos hE ha) (fun _ _ => ?_)
-  refine Safe.bind env (safe_mkPos hE hb) (fun _ _ => ?_)
-  exact Safe.pure env _ trivial
+  refine Safe.bind env (safe_mkPos hE ha) (fun _ h1 => ?_)
+  refine Safe.bind env (safe_mkPos hE hb) (fun _ h2 => ?_)
+  exact Safe.pure env _ ⟨h1, h2⟩
 
 theorem safe_getJavadoc (hE : EnvOk env I) {n : Nat} (h : Bd I n) : Safe env (Actions.getJavadoc n) (fun _ => True) := by
-  intro ds
+  intro ds hds
   obtain ⟨pre, post, h1, h2⟩ := h
   obtain ⟨r, hr⟩ := javadoc_no_panic I n ⟨pre, post, h1, h2⟩
   unfold Actions.getJavadoc
-  refine Safe.bind env (P := fun e => e = env) (fun _ => rfl) (fun e he => ?_) ds
+  refine Safe.bind env (P := fun e => e = env) (fun ds' hd => show (env = env ∧ DiagsLc env ds') from ⟨rfl, hd⟩) (fun e he => ?_) ds hds
   subst he
   rw [hE.text, hr]
   exact Safe.pure e _ trivial
 
-def GoodArgs (I : List Char) (args : List ArgV) : Prop := ∀ a ∈ args, GoodArg I a
+theorem diagLc_mk {r : Range} (h : RangeGood env I r) (k : DiagKind) (m : String) (c hh : Option String) :
+    DiagLc env { kind := k, range := r, message := m, context := c, hint := hh, related := [] } :=
+  ⟨h.lc, by intro ri hri; cases hri⟩
 
-theorem safe_nth {args : List ArgV} (h : GoodArgs I args) (i : Nat) : Safe env (nth args i) (GoodVal I) := by
+def GoodArgs (env : Env) (I : List Char) (args : List ArgV) : Prop := ∀ a ∈ args, GoodArg env I a
+
+theorem safe_nth {args : List ArgV} (h : GoodArgs env I args) (i : Nat) : Safe env (nth args i) (GoodVal env I) := by
   unfold nth
   cases hi : args[i]? with
   | none => exact Safe.bad env _ _ (by decide)
@@ -114,10 +124,10 @@ theorem safe_nth {args : List ArgV} (h : GoodArgs I args) (i : Nat) : Safe env (
     | triple s v e => exact Safe.pure env _ ha.2.1
     | locRef n => exact Safe.pure env _ ha
 
-theorem safe_asLoc {v : Val} (h : GoodVal I v) : Safe env (asLoc v) (Bd I) := by
+theorem safe_asLoc {v : Val} (h : GoodVal env I v) : Safe env (asLoc v) (Bd I) := by
   cases v <;> first | exact Safe.bad env _ _ (by decide) | exact Safe.pure env _ (by simpa [GoodVal] using h)
 
-theorem safe_locAt {args : List ArgV} (h : GoodArgs I args) (i : Nat) : Safe env (locAt args i) (Bd I) := by
+theorem safe_locAt {args : List ArgV} (h : GoodArgs env I args) (i : Nat) : Safe env (locAt args i) (Bd I) := by
   unfold locAt
   exact Safe.bind env (safe_nth h i) (fun v hv => safe_asLoc hv)
 
@@ -125,94 +135,110 @@ theorem safe_asTok (v : Val) : Safe env (asTok v) (fun _ => True) := by
   cases v <;> first | exact Safe.bad env _ _ (by decide) | exact Safe.pure env _ trivial
 theorem safe_asStr (v : Val) : Safe env (asStr v) (fun _ => True) := by
   cases v <;> first | exact Safe.bad env _ _ (by decide) | exact Safe.pure env _ trivial
-theorem safe_asTy (v : Val) : Safe env (asTy v) (fun _ => True) := by
-  cases v <;> first | exact Safe.bad env _ _ (by decide) | exact Safe.pure env _ trivial
-theorem safe_asPackageV (v : Val) : Safe env (asPackageV v) (fun _ => True) := by
-  cases v <;> first | exact Safe.bad env _ _ (by decide) | exact Safe.pure env _ trivial
-theorem safe_asImportV (v : Val) : Safe env (asImportV v) (fun _ => True) := by
-  cases v <;> first | exact Safe.bad env _ _ (by decide) | exact Safe.pure env _ trivial
-theorem safe_asItemV (v : Val) : Safe env (asItemV v) (fun _ => True) := by
-  cases v <;> first | exact Safe.bad env _ _ (by decide) | exact Safe.pure env _ trivial
-theorem safe_asIfaceV (v : Val) : Safe env (asIfaceV v) (fun _ => True) := by
-  cases v <;> first | exact Safe.bad env _ _ (by decide) | exact Safe.pure env _ trivial
-theorem safe_asParcV (v : Val) : Safe env (asParcV v) (fun _ => True) := by
-  cases v <;> first | exact Safe.bad env _ _ (by decide) | exact Safe.pure env _ trivial
-theorem safe_asEnmV (v : Val) : Safe env (asEnmV v) (fun _ => True) := by
-  cases v <;> first | exact Safe.bad env _ _ (by decide) | exact Safe.pure env _ trivial
-theorem safe_asMethodV (v : Val) : Safe env (asMethodV v) (fun _ => True) := by
-  cases v <;> first | exact Safe.bad env _ _ (by decide) | exact Safe.pure env _ trivial
-theorem safe_asConstV (v : Val) : Safe env (asConstV v) (fun _ => True) := by
-  cases v <;> first | exact Safe.bad env _ _ (by decide) | exact Safe.pure env _ trivial
-theorem safe_asFieldV (v : Val) : Safe env (asFieldV v) (fun _ => True) := by
-  cases v <;> first | exact Safe.bad env _ _ (by decide) | exact Safe.pure env _ trivial
-theorem safe_asEnumElV (v : Val) : Safe env (asEnumElV v) (fun _ => True) := by
-  cases v <;> first | exact Safe.bad env _ _ (by decide) | exact Safe.pure env _ trivial
-theorem safe_asDirV (v : Val) : Safe env (asDirV v) (fun _ => True) := by
-  cases v <;> first | exact Safe.bad env _ _ (by decide) | exact Safe.pure env _ trivial
+theorem safe_asTy {v : Val} (h : GoodVal env I v) : Safe env (asTy v) (TyGood env I) := by
+  cases v <;> first | exact Safe.bad env _ _ (by decide) | exact Safe.pure env _ (by simpa [GoodVal] using h)
+theorem safe_asPackageV {v : Val} (h : GoodVal env I v) : Safe env (asPackageV v) (PackageGood env I) := by
+  cases v <;> first | exact Safe.bad env _ _ (by decide) | exact Safe.pure env _ (by simpa [GoodVal] using h)
+theorem safe_asImportV {v : Val} (h : GoodVal env I v) : Safe env (asImportV v) (ImportGood env I) := by
+  cases v <;> first | exact Safe.bad env _ _ (by decide) | exact Safe.pure env _ (by simpa [GoodVal] using h)
+theorem safe_asItemV {v : Val} (h : GoodVal env I v) : Safe env (asItemV v) (ItemGood env I) := by
+  cases v <;> first | exact Safe.bad env _ _ (by decide) | exact Safe.pure env _ (by simpa [GoodVal] using h)
+theorem safe_asIfaceV {v : Val} (h : GoodVal env I v) : Safe env (asIfaceV v) (IfaceGood env I) := by
+  cases v <;> first | exact Safe.bad env _ _ (by decide) | exact Safe.pure env _ (by simpa [GoodVal] using h)
+theorem safe_asParcV {v : Val} (h : GoodVal env I v) : Safe env (asParcV v) (ParcGood env I) := by
+  cases v <;> first | exact Safe.bad env _ _ (by decide) | exact Safe.pure env _ (by simpa [GoodVal] using h)
+theorem safe_asEnmV {v : Val} (h : GoodVal env I v) : Safe env (asEnmV v) (EnmGood env I) := by
+  cases v <;> first | exact Safe.bad env _ _ (by decide) | exact Safe.pure env _ (by simpa [GoodVal] using h)
+theorem safe_asMethodV {v : Val} (h : GoodVal env I v) : Safe env (asMethodV v) (MethodGood env I) := by
+  cases v <;> first | exact Safe.bad env _ _ (by decide) | exact Safe.pure env _ (by simpa [GoodVal] using h)
+theorem safe_asConstV {v : Val} (h : GoodVal env I v) : Safe env (asConstV v) (ConstGood env I) := by
+  cases v <;> first | exact Safe.bad env _ _ (by decide) | exact Safe.pure env _ (by simpa [GoodVal] using h)
+theorem safe_asFieldV {v : Val} (h : GoodVal env I v) : Safe env (asFieldV v) (FieldGood env I) := by
+  cases v <;> first | exact Safe.bad env _ _ (by decide) | exact Safe.pure env _ (by simpa [GoodVal] using h)
+theorem safe_asEnumElV {v : Val} (h : GoodVal env I v) : Safe env (asEnumElV v) (EnumElGood env I) := by
+  cases v <;> first | exact Safe.bad env _ _ (by decide) | exact Safe.pure env _ (by simpa [GoodVal] using h)
+theorem safe_asDirV {v : Val} (h : GoodVal env I v) : Safe env (asDirV v) (DirGood env I) := by
+  cases v <;> first | exact Safe.bad env _ _ (by decide) | exact Safe.pure env _ (by simpa [GoodVal] using h)
 theorem safe_asStrPairV (v : Val) : Safe env (asStrPairV v) (fun _ => True) := by
   unfold asStrPairV
   split <;> first | exact Safe.bad env _ _ (by decide) | exact Safe.pure env _ trivial
 theorem safe_asAnnParamV (v : Val) : Safe env (asAnnParamV v) (fun _ => True) := by
   unfold asAnnParamV
   split <;> first | exact Safe.bad env _ _ (by decide) | exact Safe.pure env _ trivial
-theorem safe_asLocTokV {v : Val} (h : GoodVal I v) : Safe env (asLocTokV v) (fun ls => Bd I ls.1) := by
+theorem safe_asLocTokV {v : Val} (h : GoodVal env I v) : Safe env (asLocTokV v) (fun ls => Bd I ls.1) := by
   unfold asLocTokV
   split
   · exact Safe.pure env _ (by simp only [GoodVal] at h; exact h.1)
   · exact Safe.bad env _ _ (by decide)
-theorem safe_asArgV (v : Val) : Safe env (asArgV v) (fun _ => True) := by
-  cases v <;> first | exact Safe.bad env _ _ (by decide) | exact Safe.pure env _ trivial
-theorem safe_asIelV (v : Val) : Safe env (asIelV v) (fun _ => True) := by
-  cases v <;> first | exact Safe.bad env _ _ (by decide) | exact Safe.pure env _ trivial
-theorem safe_asPelV (v : Val) : Safe env (asPelV v) (fun _ => True) := by
-  cases v <;> first | exact Safe.bad env _ _ (by decide) | exact Safe.pure env _ trivial
+theorem safe_asArgV {v : Val} (h : GoodVal env I v) : Safe env (asArgV v) (ArgGood env I) := by
+  cases v <;> first | exact Safe.bad env _ _ (by decide) | exact Safe.pure env _ (by simpa [GoodVal] using h)
+theorem safe_asIelV {v : Val} (h : GoodVal env I v) : Safe env (asIelV v) (IelGood env I) := by
+  cases v <;> first | exact Safe.bad env _ _ (by decide) | exact Safe.pure env _ (by simpa [GoodVal] using h)
+theorem safe_asPelV {v : Val} (h : GoodVal env I v) : Safe env (asPelV v) (PelGood env I) := by
+  cases v <;> first | exact Safe.bad env _ _ (by decide) | exact Safe.pure env _ (by simpa [GoodVal] using h)
 
-theorem goodVals_iff (l : List Val) : GoodVals I l ↔ ∀ x ∈ l, GoodVal I x := by
+theorem safe_mapM_asArgV {l : List Val} (h : ∀ x ∈ l, GoodVal env I x) :
+    Safe env (l.mapM asArgV) (fun r => ∀ a ∈ r, ArgGood env I a) :=
+  Safe.mapM env _ l (fun a ha => safe_asArgV (h a ha))
+theorem safe_mapM_asIelV {l : List Val} (h : ∀ x ∈ l, GoodVal env I x) :
+    Safe env (l.mapM asIelV) (fun r => ∀ a ∈ r, IelGood env I a) :=
+  Safe.mapM env _ l (fun a ha => safe_asIelV (h a ha))
+theorem safe_mapM_asPelV {l : List Val} (h : ∀ x ∈ l, GoodVal env I x) :
+    Safe env (l.mapM asPelV) (fun r => ∀ a ∈ r, PelGood env I a) :=
+  Safe.mapM env _ l (fun a ha => safe_asPelV (h a ha))
+theorem safe_mapM_asEnumElV {l : List Val} (h : ∀ x ∈ l, GoodVal env I x) :
+    Safe env (l.mapM asEnumElV) (fun r => ∀ a ∈ r, EnumElGood env I a) :=
+  Safe.mapM env _ l (fun a ha => safe_asEnumElV (h a ha))
+theorem safe_mapM_asImportV {l : List Val} (h : ∀ x ∈ l, GoodVal env I x) :
+    Safe env (l.mapM asImportV) (fun r => ∀ a ∈ r, ImportGood env I a) :=
+  Safe.mapM env _ l (fun a ha => safe_asImportV (h a ha))
+
+theorem goodVals_iff (l : List Val) : GoodVals env I l ↔ ∀ x ∈ l, GoodVal env I x := by
   induction l with
   | nil => simp [GoodVals]
   | cons v vs ih => simp [GoodVals, ih]
 
-theorem safe_asList {v : Val} (h : GoodVal I v) : Safe env (asList v) (fun l => ∀ x ∈ l, GoodVal I x) := by
+theorem safe_asList {v : Val} (h : GoodVal env I v) : Safe env (asList v) (fun l => ∀ x ∈ l, GoodVal env I x) := by
   cases v <;> first | exact Safe.bad env _ _ (by decide) | skip
   rename_i l
   exact Safe.pure env _ ((goodVals_iff l).mp (by simpa [GoodVal] using h))
 
-theorem safe_asOpt {v : Val} (h : GoodVal I v) : Safe env (asOpt v) (fun o => ∀ x, o = some x → GoodVal I x) := by
+theorem safe_asOpt {v : Val} (h : GoodVal env I v) : Safe env (asOpt v) (fun o => ∀ x, o = some x → GoodVal env I x) := by
   cases v <;> first | exact Safe.bad env _ _ (by decide) | skip
   · exact Safe.pure env _ (by intro x hx; cases hx)
   · exact Safe.pure env _ (by intro x hx; cases hx; simpa [GoodVal] using h)
 
-theorem safe_tokAt {args : List ArgV} (h : GoodArgs I args) (i : Nat) : Safe env (tokAt args i) (fun _ => True) := by
+theorem safe_tokAt {args : List ArgV} (h : GoodArgs env I args) (i : Nat) : Safe env (tokAt args i) (fun _ => True) := by
   unfold tokAt
   exact Safe.bind env (safe_nth h i) (fun v _ => safe_asTok v)
 
-theorem safe_asAnns {v : Val} (h : GoodVal I v) : Safe env (asAnns v) (fun _ => True) := by
+theorem safe_asAnns {v : Val} (h : GoodVal env I v) : Safe env (asAnns v) (fun _ => True) := by
   unfold asAnns
   refine Safe.bind env (safe_asList h) (fun l _ => ?_)
   refine Safe.mono env (Safe.mapM env (P := fun _ => True) _ l ?_) (fun _ _ => trivial)
   intro a _
   cases a <;> first | exact Safe.bad env _ _ (by decide) | exact Safe.pure env _ trivial
 
-theorem safe_optTokStr {v : Val} (h : GoodVal I v) : Safe env (optTokStr v) (fun _ => True) := by
+theorem safe_optTokStr {v : Val} (h : GoodVal env I v) : Safe env (optTokStr v) (fun _ => True) := by
   unfold optTokStr
   refine Safe.bind env (safe_asOpt h) (fun o _ => ?_)
   cases o with
   | none => exact Safe.pure env _ trivial
   | some t => exact Safe.map env (safe_asTok t) (fun _ _ => trivial)
 
-theorem safe_joinToks {v : Val} (h : GoodVal I v) : Safe env (joinToks v) (fun _ => True) := by
+theorem safe_joinToks {v : Val} (h : GoodVal env I v) : Safe env (joinToks v) (fun _ => True) := by
   unfold joinToks
   refine Safe.bind env (safe_asList h) (fun l _ => ?_)
   refine Safe.bind env (Safe.mapM env (P := fun _ => True) _ l (fun a _ => safe_asTok a)) (fun _ _ => ?_)
   exact Safe.pure env _ trivial
 
-theorem safe_flattenOpts {v : Val} (h : GoodVal I v) : Safe env (flattenOpts v) (fun l => ∀ x ∈ l, GoodVal I x) := by
+theorem safe_flattenOpts {v : Val} (h : GoodVal env I v) : Safe env (flattenOpts v) (fun l => ∀ x ∈ l, GoodVal env I x) := by
   unfold flattenOpts
   refine Safe.bind env (safe_asList h) (fun l hl => ?_)
-  refine Safe.bind env (P := fun os => ∀ o ∈ os, ∀ x, o = some x → GoodVal I x) ?_ (fun os hos => ?_)
+  refine Safe.bind env (P := fun os => ∀ o ∈ os, ∀ x, o = some x → GoodVal env I x) ?_ (fun os hos => ?_)
   · -- mapM asOpt
-    have : ∀ (l : List Val), (∀ x ∈ l, GoodVal I x) →
-        Safe env (l.mapM asOpt) (fun os => ∀ o ∈ os, ∀ x, o = some x → GoodVal I x) := by
+    have : ∀ (l : List Val), (∀ x ∈ l, GoodVal env I x) →
+        Safe env (l.mapM asOpt) (fun os => ∀ o ∈ os, ∀ x, o = some x → GoodVal env I x) := by
       intro l
       induction l with
       | nil => intro _; rw [List.mapM_nil]; exact Safe.pure env _ (by intro o ho; cases ho)
@@ -233,10 +259,10 @@ theorem safe_flattenOpts {v : Val} (h : GoodVal I v) : Safe env (flattenOpts v) 
     exact hos o ho x hox
 
 theorem safe_simpleType (hE : EnvOk env I) (name : String) (k : TypeKind) {a b : Nat} (ha : Bd I a) (hb : Bd I b) :
-    Safe env (simpleType name k a b) (GoodVal I) := by
+    Safe env (simpleType name k a b) (GoodVal env I) := by
   unfold simpleType
-  refine Safe.bind env (safe_mkRange hE ha hb) (fun _ _ => ?_)
-  exact Safe.pure env _ trivial
+  refine Safe.bind env (safe_mkRange hE ha hb) (fun _ hr => ?_)
+  exact Safe.pure env _ ⟨hr, hr, trivial⟩
 
 
 /-! ### every hand-written action (one lemma per label, all by the same tactic) -/
@@ -250,30 +276,30 @@ theorem safe_bind_bad {env : Env} {α β} {Q : β → Prop} {k : PanicKind} {m :
   Safe.bind env (Safe.bad env (P := fun _ => False) k m h) (fun _ hf => hf.elim)
 
 theorem safe_recoveryAction {env : Env} {I : List Char} (hE : EnvOk env I) (msg : String) {args : List ArgV}
-    (h : GoodArgs I args) : Safe env (recoveryAction msg args) (GoodVal I) := by
+    (h : GoodArgs env I args) : Safe env (recoveryAction msg args) (GoodVal env I) := by
   unfold recoveryAction
   refine Safe.bind _ (safe_nth h 0) (fun v hv => ?_)
   cases v <;> first | exact Safe.bad _ _ _ (by decide) | skip
   rename_i e d
   have he : GoodErr I e := by simp only [GoodVal] at hv; exact hv.1
-  have hfe : Safe env (fromParseError e) (fun _ => True) := by
+  have hfe : Safe env (fromParseError e) (DiagLc env) := by
     unfold fromParseError
     cases e with
     | invalidToken l =>
-      exact Safe.bind _ (safe_mkRange hE he he) (fun _ _ => Safe.pure _ _ trivial)
+      exact Safe.bind _ (safe_mkRange hE he he) (fun _ hr => Safe.pure _ _ ⟨hr.lc, by intro ri h; cases h⟩)
     | unrecognizedEof l ex =>
-      exact Safe.bind _ (safe_mkRange hE he he) (fun _ _ => Safe.pure _ _ trivial)
+      exact Safe.bind _ (safe_mkRange hE he he) (fun _ hr => Safe.pure _ _ ⟨hr.lc, by intro ri h; cases h⟩)
     | unrecognizedToken t ex =>
-      exact Safe.bind _ (safe_mkRange hE he.1 he.2) (fun _ _ => Safe.pure _ _ trivial)
+      exact Safe.bind _ (safe_mkRange hE he.1 he.2) (fun _ hr => Safe.pure _ _ ⟨hr.lc, by intro ri h; cases h⟩)
     | extraToken t =>
-      exact Safe.bind _ (safe_mkRange hE he.1 he.2) (fun _ _ => Safe.pure _ _ trivial)
-  refine Safe.bind _ (P := fun _ => True) ?_ (fun _ _ => ?_)
+      exact Safe.bind _ (safe_mkRange hE he.1 he.2) (fun _ hr => Safe.pure _ _ ⟨hr.lc, by intro ri h; cases h⟩)
+  refine Safe.bind _ (P := DiagLc env) ?_ (fun d hd => ?_)
   · unfold fromErrorRecovery
-    exact Safe.bind _ hfe (fun _ _ => Safe.pure _ _ trivial)
-  · exact Safe.bind _ (Safe.pushDiag _ _) (fun _ _ => Safe.pure _ _ trivial)
+    exact Safe.bind _ hfe (fun d hd => Safe.pure _ _ hd)
+  · exact Safe.bind _ (Safe.pushDiag _ _ hd) (fun _ _ => Safe.pure _ _ trivial)
 
 theorem bd_of_pair {I : List Char} {ip : Nat} {s : String}
-    (h : ∀ x, some ((Val.loc ip).pair (Val.tok s)) = some x → GoodVal I x) : Bd I ip := by
+    (h : ∀ x, some ((Val.loc ip).pair (Val.tok s)) = some x → GoodVal env I x) : Bd I ip := by
   have := h _ rfl
   simp only [GoodVal] at this
   exact this.1
@@ -283,7 +309,10 @@ macro "goodval" : tactic => `(tactic| first
   | assumption
   | exact bd_of_pair (by assumption)
   | solve_by_elim
-  | (simp only [GoodVal, GoodVals, goodVals_iff, and_true, true_and]; first | trivial | assumption | (intros; simp_all)))
+  | (simp only [GoodVal, GoodVals, goodVals_iff, and_true, true_and]; first | trivial | assumption | (intros; simp_all))
+  | (simp only [GoodVal, GoodVals, goodVals_iff, TyGood, TysGood, DirGood, ArgGood, MethodGood, ConstGood, FieldGood, EnumElGood,
+       IelGood, PelGood, IfaceGood, ParcGood, EnmGood, ItemGood, PackageGood, ImportGood, AidlGood, and_true, true_and];
+     first | trivial | assumption | (intros; simp_all) | grind))
 
 macro "sstep" : tactic => `(tactic| first
   | with_reducible refine Safe.bind _ (safe_locAt (by assumption) _) (fun _ _ => ?_)
@@ -294,50 +323,41 @@ macro "sstep" : tactic => `(tactic| first
   | with_reducible refine Safe.bind _ (safe_asLoc (by with_unfolding_all goodval)) (fun _ _ => ?_)
   | with_reducible refine Safe.bind _ (safe_asTok _) (fun _ _ => ?_)
   | with_reducible refine Safe.bind _ (safe_asStr _) (fun _ _ => ?_)
-  | with_reducible refine Safe.bind _ (safe_asTy _) (fun _ _ => ?_)
+  | with_reducible refine Safe.bind _ (safe_asTy (by with_unfolding_all goodval)) (fun _ _ => ?_)
   | with_reducible refine Safe.bind _ (safe_asList (by with_unfolding_all goodval)) (fun _ _ => ?_)
   | with_reducible refine Safe.bind _ (safe_asOpt (by with_unfolding_all goodval)) (fun _ _ => ?_)
   | with_reducible refine Safe.bind _ (safe_asAnns (by with_unfolding_all goodval)) (fun _ _ => ?_)
   | with_reducible refine Safe.bind _ (safe_optTokStr (by with_unfolding_all goodval)) (fun _ _ => ?_)
   | with_reducible refine Safe.bind _ (safe_joinToks (by with_unfolding_all goodval)) (fun _ _ => ?_)
   | with_reducible refine Safe.bind _ (safe_flattenOpts (by with_unfolding_all goodval)) (fun _ _ => ?_)
-  | with_reducible refine Safe.bind _ (Safe.pushDiag _ _) (fun _ _ => ?_)
+  | with_reducible refine Safe.bind _ (Safe.pushDiag _ _ (diagLc_mk (by assumption) _ _ _ _)) (fun _ _ => ?_)
   | with_reducible refine safe_bind_pure ?_
   | (with_reducible refine safe_bind_bad ?_) <;> decide
   | with_reducible refine Safe.bind _ (Safe.map _ (safe_asStr _) (fun _ _ => trivial) (Q := fun _ => True)) (fun _ _ => ?_)
   | with_reducible refine Safe.bind _ (Safe.map _ (safe_asTok _) (fun _ _ => trivial) (Q := fun _ => True)) (fun _ _ => ?_)
+  | with_reducible refine Safe.bind _ (safe_mapM_asArgV (by assumption)) (fun _ _ => ?_)
+  | with_reducible refine Safe.bind _ (safe_mapM_asIelV (by assumption)) (fun _ _ => ?_)
+  | with_reducible refine Safe.bind _ (safe_mapM_asPelV (by assumption)) (fun _ _ => ?_)
+  | with_reducible refine Safe.bind _ (safe_mapM_asEnumElV (by assumption)) (fun _ _ => ?_)
+  | with_reducible refine Safe.bind _ (safe_mapM_asImportV (by assumption)) (fun _ _ => ?_)
   | with_reducible refine Safe.bind _ (Safe.mapM _ (P := fun _ => True) _ _ (fun _ _ => ?_)) (fun _ _ => ?_)
   | with_reducible exact safe_simpleType (by assumption) _ _ (by assumption) (by assumption)
-  | with_reducible exact safe_asPackageV _
-  | with_reducible refine Safe.bind _ (safe_asPackageV _) (fun _ _ => ?_)
-  | with_reducible exact safe_asImportV _
-  | with_reducible refine Safe.bind _ (safe_asImportV _) (fun _ _ => ?_)
-  | with_reducible exact safe_asItemV _
-  | with_reducible refine Safe.bind _ (safe_asItemV _) (fun _ _ => ?_)
-  | with_reducible exact safe_asIfaceV _
-  | with_reducible refine Safe.bind _ (safe_asIfaceV _) (fun _ _ => ?_)
-  | with_reducible exact safe_asParcV _
-  | with_reducible refine Safe.bind _ (safe_asParcV _) (fun _ _ => ?_)
-  | with_reducible exact safe_asEnmV _
-  | with_reducible refine Safe.bind _ (safe_asEnmV _) (fun _ _ => ?_)
-  | with_reducible exact safe_asMethodV _
-  | with_reducible refine Safe.bind _ (safe_asMethodV _) (fun _ _ => ?_)
-  | with_reducible exact safe_asConstV _
-  | with_reducible refine Safe.bind _ (safe_asConstV _) (fun _ _ => ?_)
-  | with_reducible exact safe_asFieldV _
-  | with_reducible refine Safe.bind _ (safe_asFieldV _) (fun _ _ => ?_)
-  | with_reducible exact safe_asEnumElV _
-  | with_reducible refine Safe.bind _ (safe_asEnumElV _) (fun _ _ => ?_)
-  | with_reducible exact safe_asDirV _
-  | with_reducible refine Safe.bind _ (safe_asDirV _) (fun _ _ => ?_)
+  | with_reducible refine Safe.bind _ (safe_asPackageV (by with_unfolding_all goodval)) (fun _ _ => ?_)
+  | with_reducible refine Safe.bind _ (safe_asImportV (by with_unfolding_all goodval)) (fun _ _ => ?_)
+  | with_reducible refine Safe.bind _ (safe_asItemV (by with_unfolding_all goodval)) (fun _ _ => ?_)
+  | with_reducible refine Safe.bind _ (safe_asIfaceV (by with_unfolding_all goodval)) (fun _ _ => ?_)
+  | with_reducible refine Safe.bind _ (safe_asParcV (by with_unfolding_all goodval)) (fun _ _ => ?_)
+  | with_reducible refine Safe.bind _ (safe_asEnmV (by with_unfolding_all goodval)) (fun _ _ => ?_)
+  | with_reducible refine Safe.bind _ (safe_asMethodV (by with_unfolding_all goodval)) (fun _ _ => ?_)
+  | with_reducible refine Safe.bind _ (safe_asConstV (by with_unfolding_all goodval)) (fun _ _ => ?_)
+  | with_reducible refine Safe.bind _ (safe_asFieldV (by with_unfolding_all goodval)) (fun _ _ => ?_)
+  | with_reducible refine Safe.bind _ (safe_asEnumElV (by with_unfolding_all goodval)) (fun _ _ => ?_)
+  | with_reducible refine Safe.bind _ (safe_asDirV (by with_unfolding_all goodval)) (fun _ _ => ?_)
   | with_reducible exact safe_asStrPairV _
   | with_reducible refine Safe.bind _ (safe_asStrPairV _) (fun _ _ => ?_)
   | with_reducible exact safe_asAnnParamV _
   | with_reducible refine Safe.bind _ (safe_asAnnParamV _) (fun _ _ => ?_)
   | with_reducible refine Safe.bind _ (safe_asLocTokV (by with_unfolding_all goodval)) (fun _ _ => ?_)
-  | with_reducible exact safe_asArgV _
-  | with_reducible exact safe_asIelV _
-  | with_reducible exact safe_asPelV _
   | with_reducible exact safe_recoveryAction (by assumption) _ (by assumption)
   | with_reducible refine Safe.pure _ _ ?_
   | (with_reducible refine Safe.bad _ _ _ ?_) <;> decide)
@@ -346,331 +366,331 @@ macro "sauto" : tactic => `(tactic| (repeat (any_goals (first | sstep | split)))
 
 
 set_option maxRecDepth 10000 in
-theorem act_16 (env : Env) (I : List Char) (hE : EnvOk env I) (args : List ArgV) (h : GoodArgs I args) :
-    Safe env (userAction 16 args) (GoodVal I) := by
+theorem act_16 (env : Env) (I : List Char) (hE : EnvOk env I) (args : List ArgV) (h : GoodArgs env I args) :
+    Safe env (userAction 16 args) (GoodVal env I) := by
   unfold userAction
   simp only []
   sauto
 
 set_option maxRecDepth 10000 in
-theorem act_17 (env : Env) (I : List Char) (hE : EnvOk env I) (args : List ArgV) (h : GoodArgs I args) :
-    Safe env (userAction 17 args) (GoodVal I) := by
+theorem act_17 (env : Env) (I : List Char) (hE : EnvOk env I) (args : List ArgV) (h : GoodArgs env I args) :
+    Safe env (userAction 17 args) (GoodVal env I) := by
   unfold userAction
   simp only []
   sauto
 
 set_option maxRecDepth 10000 in
-theorem act_18 (env : Env) (I : List Char) (hE : EnvOk env I) (args : List ArgV) (h : GoodArgs I args) :
-    Safe env (userAction 18 args) (GoodVal I) := by
+theorem act_18 (env : Env) (I : List Char) (hE : EnvOk env I) (args : List ArgV) (h : GoodArgs env I args) :
+    Safe env (userAction 18 args) (GoodVal env I) := by
   unfold userAction
   simp only []
   sauto
 
 set_option maxRecDepth 10000 in
-theorem act_19 (env : Env) (I : List Char) (hE : EnvOk env I) (args : List ArgV) (h : GoodArgs I args) :
-    Safe env (userAction 19 args) (GoodVal I) := by
+theorem act_19 (env : Env) (I : List Char) (hE : EnvOk env I) (args : List ArgV) (h : GoodArgs env I args) :
+    Safe env (userAction 19 args) (GoodVal env I) := by
   unfold userAction
   simp only []
   sauto
 
 set_option maxRecDepth 10000 in
-theorem act_20 (env : Env) (I : List Char) (hE : EnvOk env I) (args : List ArgV) (h : GoodArgs I args) :
-    Safe env (userAction 20 args) (GoodVal I) := by
+theorem act_20 (env : Env) (I : List Char) (hE : EnvOk env I) (args : List ArgV) (h : GoodArgs env I args) :
+    Safe env (userAction 20 args) (GoodVal env I) := by
   unfold userAction
   simp only []
   sauto
 
 set_option maxRecDepth 10000 in
-theorem act_21 (env : Env) (I : List Char) (hE : EnvOk env I) (args : List ArgV) (h : GoodArgs I args) :
-    Safe env (userAction 21 args) (GoodVal I) := by
+theorem act_21 (env : Env) (I : List Char) (hE : EnvOk env I) (args : List ArgV) (h : GoodArgs env I args) :
+    Safe env (userAction 21 args) (GoodVal env I) := by
   unfold userAction
   simp only []
   sauto
 
 set_option maxRecDepth 10000 in
-theorem act_22 (env : Env) (I : List Char) (hE : EnvOk env I) (args : List ArgV) (h : GoodArgs I args) :
-    Safe env (userAction 22 args) (GoodVal I) := by
+theorem act_22 (env : Env) (I : List Char) (hE : EnvOk env I) (args : List ArgV) (h : GoodArgs env I args) :
+    Safe env (userAction 22 args) (GoodVal env I) := by
   unfold userAction
   simp only []
   sauto
 
 set_option maxRecDepth 10000 in
-theorem act_23 (env : Env) (I : List Char) (hE : EnvOk env I) (args : List ArgV) (h : GoodArgs I args) :
-    Safe env (userAction 23 args) (GoodVal I) := by
+theorem act_23 (env : Env) (I : List Char) (hE : EnvOk env I) (args : List ArgV) (h : GoodArgs env I args) :
+    Safe env (userAction 23 args) (GoodVal env I) := by
   unfold userAction
   simp only []
   sauto
 
 set_option maxRecDepth 10000 in
-theorem act_24 (env : Env) (I : List Char) (hE : EnvOk env I) (args : List ArgV) (h : GoodArgs I args) :
-    Safe env (userAction 24 args) (GoodVal I) := by
+theorem act_24 (env : Env) (I : List Char) (hE : EnvOk env I) (args : List ArgV) (h : GoodArgs env I args) :
+    Safe env (userAction 24 args) (GoodVal env I) := by
   unfold userAction
   simp only []
   sauto
 
 set_option maxRecDepth 10000 in
-theorem act_25 (env : Env) (I : List Char) (hE : EnvOk env I) (args : List ArgV) (h : GoodArgs I args) :
-    Safe env (userAction 25 args) (GoodVal I) := by
+theorem act_25 (env : Env) (I : List Char) (hE : EnvOk env I) (args : List ArgV) (h : GoodArgs env I args) :
+    Safe env (userAction 25 args) (GoodVal env I) := by
   unfold userAction
   simp only []
   sauto
 
 set_option maxRecDepth 10000 in
-theorem act_26 (env : Env) (I : List Char) (hE : EnvOk env I) (args : List ArgV) (h : GoodArgs I args) :
-    Safe env (userAction 26 args) (GoodVal I) := by
+theorem act_26 (env : Env) (I : List Char) (hE : EnvOk env I) (args : List ArgV) (h : GoodArgs env I args) :
+    Safe env (userAction 26 args) (GoodVal env I) := by
   unfold userAction
   simp only []
   sauto
 
 set_option maxRecDepth 10000 in
-theorem act_27 (env : Env) (I : List Char) (hE : EnvOk env I) (args : List ArgV) (h : GoodArgs I args) :
-    Safe env (userAction 27 args) (GoodVal I) := by
+theorem act_27 (env : Env) (I : List Char) (hE : EnvOk env I) (args : List ArgV) (h : GoodArgs env I args) :
+    Safe env (userAction 27 args) (GoodVal env I) := by
   unfold userAction
   simp only []
   sauto
 
 set_option maxRecDepth 10000 in
-theorem act_28 (env : Env) (I : List Char) (hE : EnvOk env I) (args : List ArgV) (h : GoodArgs I args) :
-    Safe env (userAction 28 args) (GoodVal I) := by
+theorem act_28 (env : Env) (I : List Char) (hE : EnvOk env I) (args : List ArgV) (h : GoodArgs env I args) :
+    Safe env (userAction 28 args) (GoodVal env I) := by
   unfold userAction
   simp only []
   sauto
 
 set_option maxRecDepth 10000 in
-theorem act_29 (env : Env) (I : List Char) (hE : EnvOk env I) (args : List ArgV) (h : GoodArgs I args) :
-    Safe env (userAction 29 args) (GoodVal I) := by
+theorem act_29 (env : Env) (I : List Char) (hE : EnvOk env I) (args : List ArgV) (h : GoodArgs env I args) :
+    Safe env (userAction 29 args) (GoodVal env I) := by
   unfold userAction
   simp only []
   sauto
 
 set_option maxRecDepth 10000 in
-theorem act_30 (env : Env) (I : List Char) (hE : EnvOk env I) (args : List ArgV) (h : GoodArgs I args) :
-    Safe env (userAction 30 args) (GoodVal I) := by
+theorem act_30 (env : Env) (I : List Char) (hE : EnvOk env I) (args : List ArgV) (h : GoodArgs env I args) :
+    Safe env (userAction 30 args) (GoodVal env I) := by
   unfold userAction
   simp only []
   sauto
 
 set_option maxRecDepth 10000 in
-theorem act_31 (env : Env) (I : List Char) (hE : EnvOk env I) (args : List ArgV) (h : GoodArgs I args) :
-    Safe env (userAction 31 args) (GoodVal I) := by
+theorem act_31 (env : Env) (I : List Char) (hE : EnvOk env I) (args : List ArgV) (h : GoodArgs env I args) :
+    Safe env (userAction 31 args) (GoodVal env I) := by
   unfold userAction
   simp only []
   sauto
 
 set_option maxRecDepth 10000 in
-theorem act_32 (env : Env) (I : List Char) (hE : EnvOk env I) (args : List ArgV) (h : GoodArgs I args) :
-    Safe env (userAction 32 args) (GoodVal I) := by
+theorem act_32 (env : Env) (I : List Char) (hE : EnvOk env I) (args : List ArgV) (h : GoodArgs env I args) :
+    Safe env (userAction 32 args) (GoodVal env I) := by
   unfold userAction
   simp only []
   sauto
 
 set_option maxRecDepth 10000 in
-theorem act_33 (env : Env) (I : List Char) (hE : EnvOk env I) (args : List ArgV) (h : GoodArgs I args) :
-    Safe env (userAction 33 args) (GoodVal I) := by
+theorem act_33 (env : Env) (I : List Char) (hE : EnvOk env I) (args : List ArgV) (h : GoodArgs env I args) :
+    Safe env (userAction 33 args) (GoodVal env I) := by
   unfold userAction
   simp only []
   sauto
 
 set_option maxRecDepth 10000 in
-theorem act_34 (env : Env) (I : List Char) (hE : EnvOk env I) (args : List ArgV) (h : GoodArgs I args) :
-    Safe env (userAction 34 args) (GoodVal I) := by
+theorem act_34 (env : Env) (I : List Char) (hE : EnvOk env I) (args : List ArgV) (h : GoodArgs env I args) :
+    Safe env (userAction 34 args) (GoodVal env I) := by
   unfold userAction
   simp only []
   sauto
 
 set_option maxRecDepth 10000 in
-theorem act_35 (env : Env) (I : List Char) (hE : EnvOk env I) (args : List ArgV) (h : GoodArgs I args) :
-    Safe env (userAction 35 args) (GoodVal I) := by
+theorem act_35 (env : Env) (I : List Char) (hE : EnvOk env I) (args : List ArgV) (h : GoodArgs env I args) :
+    Safe env (userAction 35 args) (GoodVal env I) := by
   unfold userAction
   simp only []
   sauto
 
 set_option maxHeartbeats 4000000 in
 set_option maxRecDepth 10000 in
-theorem act_36 (env : Env) (I : List Char) (hE : EnvOk env I) (args : List ArgV) (h : GoodArgs I args) :
-    Safe env (userAction 36 args) (GoodVal I) := by
+theorem act_36 (env : Env) (I : List Char) (hE : EnvOk env I) (args : List ArgV) (h : GoodArgs env I args) :
+    Safe env (userAction 36 args) (GoodVal env I) := by
   unfold userAction
   simp only []
   sauto
 
 set_option maxRecDepth 10000 in
-theorem act_37 (env : Env) (I : List Char) (hE : EnvOk env I) (args : List ArgV) (h : GoodArgs I args) :
-    Safe env (userAction 37 args) (GoodVal I) := by
+theorem act_37 (env : Env) (I : List Char) (hE : EnvOk env I) (args : List ArgV) (h : GoodArgs env I args) :
+    Safe env (userAction 37 args) (GoodVal env I) := by
   unfold userAction
   simp only []
   sauto
 
 set_option maxRecDepth 10000 in
-theorem act_38 (env : Env) (I : List Char) (hE : EnvOk env I) (args : List ArgV) (h : GoodArgs I args) :
-    Safe env (userAction 38 args) (GoodVal I) := by
+theorem act_38 (env : Env) (I : List Char) (hE : EnvOk env I) (args : List ArgV) (h : GoodArgs env I args) :
+    Safe env (userAction 38 args) (GoodVal env I) := by
   unfold userAction
   simp only []
   sauto
 
 set_option maxRecDepth 10000 in
-theorem act_39 (env : Env) (I : List Char) (hE : EnvOk env I) (args : List ArgV) (h : GoodArgs I args) :
-    Safe env (userAction 39 args) (GoodVal I) := by
+theorem act_39 (env : Env) (I : List Char) (hE : EnvOk env I) (args : List ArgV) (h : GoodArgs env I args) :
+    Safe env (userAction 39 args) (GoodVal env I) := by
   unfold userAction
   simp only []
   sauto
 
 set_option maxRecDepth 10000 in
-theorem act_40 (env : Env) (I : List Char) (hE : EnvOk env I) (args : List ArgV) (h : GoodArgs I args) :
-    Safe env (userAction 40 args) (GoodVal I) := by
+theorem act_40 (env : Env) (I : List Char) (hE : EnvOk env I) (args : List ArgV) (h : GoodArgs env I args) :
+    Safe env (userAction 40 args) (GoodVal env I) := by
   unfold userAction
   simp only []
   sauto
 
 set_option maxRecDepth 10000 in
-theorem act_41 (env : Env) (I : List Char) (hE : EnvOk env I) (args : List ArgV) (h : GoodArgs I args) :
-    Safe env (userAction 41 args) (GoodVal I) := by
+theorem act_41 (env : Env) (I : List Char) (hE : EnvOk env I) (args : List ArgV) (h : GoodArgs env I args) :
+    Safe env (userAction 41 args) (GoodVal env I) := by
   unfold userAction
   simp only []
   sauto
 
 set_option maxRecDepth 10000 in
-theorem act_50 (env : Env) (I : List Char) (hE : EnvOk env I) (args : List ArgV) (h : GoodArgs I args) :
-    Safe env (userAction 50 args) (GoodVal I) := by
+theorem act_50 (env : Env) (I : List Char) (hE : EnvOk env I) (args : List ArgV) (h : GoodArgs env I args) :
+    Safe env (userAction 50 args) (GoodVal env I) := by
   unfold userAction
   simp only []
   sauto
 
 set_option maxRecDepth 10000 in
-theorem act_51 (env : Env) (I : List Char) (hE : EnvOk env I) (args : List ArgV) (h : GoodArgs I args) :
-    Safe env (userAction 51 args) (GoodVal I) := by
+theorem act_51 (env : Env) (I : List Char) (hE : EnvOk env I) (args : List ArgV) (h : GoodArgs env I args) :
+    Safe env (userAction 51 args) (GoodVal env I) := by
   unfold userAction
   simp only []
   sauto
 
 set_option maxRecDepth 10000 in
-theorem act_52 (env : Env) (I : List Char) (hE : EnvOk env I) (args : List ArgV) (h : GoodArgs I args) :
-    Safe env (userAction 52 args) (GoodVal I) := by
+theorem act_52 (env : Env) (I : List Char) (hE : EnvOk env I) (args : List ArgV) (h : GoodArgs env I args) :
+    Safe env (userAction 52 args) (GoodVal env I) := by
   unfold userAction
   simp only []
   sauto
 
 set_option maxRecDepth 10000 in
-theorem act_53 (env : Env) (I : List Char) (hE : EnvOk env I) (args : List ArgV) (h : GoodArgs I args) :
-    Safe env (userAction 53 args) (GoodVal I) := by
+theorem act_53 (env : Env) (I : List Char) (hE : EnvOk env I) (args : List ArgV) (h : GoodArgs env I args) :
+    Safe env (userAction 53 args) (GoodVal env I) := by
   unfold userAction
   simp only []
   sauto
 
 set_option maxRecDepth 10000 in
-theorem act_54 (env : Env) (I : List Char) (hE : EnvOk env I) (args : List ArgV) (h : GoodArgs I args) :
-    Safe env (userAction 54 args) (GoodVal I) := by
+theorem act_54 (env : Env) (I : List Char) (hE : EnvOk env I) (args : List ArgV) (h : GoodArgs env I args) :
+    Safe env (userAction 54 args) (GoodVal env I) := by
   unfold userAction
   simp only []
   sauto
 
 set_option maxRecDepth 10000 in
-theorem act_55 (env : Env) (I : List Char) (hE : EnvOk env I) (args : List ArgV) (h : GoodArgs I args) :
-    Safe env (userAction 55 args) (GoodVal I) := by
+theorem act_55 (env : Env) (I : List Char) (hE : EnvOk env I) (args : List ArgV) (h : GoodArgs env I args) :
+    Safe env (userAction 55 args) (GoodVal env I) := by
   unfold userAction
   simp only []
   sauto
 
 set_option maxRecDepth 10000 in
-theorem act_56 (env : Env) (I : List Char) (hE : EnvOk env I) (args : List ArgV) (h : GoodArgs I args) :
-    Safe env (userAction 56 args) (GoodVal I) := by
+theorem act_56 (env : Env) (I : List Char) (hE : EnvOk env I) (args : List ArgV) (h : GoodArgs env I args) :
+    Safe env (userAction 56 args) (GoodVal env I) := by
   unfold userAction
   simp only []
   sauto
 
 set_option maxRecDepth 10000 in
-theorem act_57 (env : Env) (I : List Char) (hE : EnvOk env I) (args : List ArgV) (h : GoodArgs I args) :
-    Safe env (userAction 57 args) (GoodVal I) := by
+theorem act_57 (env : Env) (I : List Char) (hE : EnvOk env I) (args : List ArgV) (h : GoodArgs env I args) :
+    Safe env (userAction 57 args) (GoodVal env I) := by
   unfold userAction
   simp only []
   sauto
 
 set_option maxRecDepth 10000 in
-theorem act_58 (env : Env) (I : List Char) (hE : EnvOk env I) (args : List ArgV) (h : GoodArgs I args) :
-    Safe env (userAction 58 args) (GoodVal I) := by
+theorem act_58 (env : Env) (I : List Char) (hE : EnvOk env I) (args : List ArgV) (h : GoodArgs env I args) :
+    Safe env (userAction 58 args) (GoodVal env I) := by
   unfold userAction
   simp only []
   sauto
 
 set_option maxRecDepth 10000 in
-theorem act_59 (env : Env) (I : List Char) (hE : EnvOk env I) (args : List ArgV) (h : GoodArgs I args) :
-    Safe env (userAction 59 args) (GoodVal I) := by
+theorem act_59 (env : Env) (I : List Char) (hE : EnvOk env I) (args : List ArgV) (h : GoodArgs env I args) :
+    Safe env (userAction 59 args) (GoodVal env I) := by
   unfold userAction
   simp only []
   sauto
 
 set_option maxRecDepth 10000 in
-theorem act_60 (env : Env) (I : List Char) (hE : EnvOk env I) (args : List ArgV) (h : GoodArgs I args) :
-    Safe env (userAction 60 args) (GoodVal I) := by
+theorem act_60 (env : Env) (I : List Char) (hE : EnvOk env I) (args : List ArgV) (h : GoodArgs env I args) :
+    Safe env (userAction 60 args) (GoodVal env I) := by
   unfold userAction
   simp only []
   sauto
 
 set_option maxRecDepth 10000 in
-theorem act_61 (env : Env) (I : List Char) (hE : EnvOk env I) (args : List ArgV) (h : GoodArgs I args) :
-    Safe env (userAction 61 args) (GoodVal I) := by
+theorem act_61 (env : Env) (I : List Char) (hE : EnvOk env I) (args : List ArgV) (h : GoodArgs env I args) :
+    Safe env (userAction 61 args) (GoodVal env I) := by
   unfold userAction
   simp only []
   sauto
 
 set_option maxRecDepth 10000 in
-theorem act_62 (env : Env) (I : List Char) (hE : EnvOk env I) (args : List ArgV) (h : GoodArgs I args) :
-    Safe env (userAction 62 args) (GoodVal I) := by
+theorem act_62 (env : Env) (I : List Char) (hE : EnvOk env I) (args : List ArgV) (h : GoodArgs env I args) :
+    Safe env (userAction 62 args) (GoodVal env I) := by
   unfold userAction
   simp only []
   sauto
 
 set_option maxRecDepth 10000 in
-theorem act_63 (env : Env) (I : List Char) (hE : EnvOk env I) (args : List ArgV) (h : GoodArgs I args) :
-    Safe env (userAction 63 args) (GoodVal I) := by
+theorem act_63 (env : Env) (I : List Char) (hE : EnvOk env I) (args : List ArgV) (h : GoodArgs env I args) :
+    Safe env (userAction 63 args) (GoodVal env I) := by
   unfold userAction
   simp only []
   sauto
 
 set_option maxRecDepth 10000 in
-theorem act_64 (env : Env) (I : List Char) (hE : EnvOk env I) (args : List ArgV) (h : GoodArgs I args) :
-    Safe env (userAction 64 args) (GoodVal I) := by
+theorem act_64 (env : Env) (I : List Char) (hE : EnvOk env I) (args : List ArgV) (h : GoodArgs env I args) :
+    Safe env (userAction 64 args) (GoodVal env I) := by
   unfold userAction
   simp only []
   sauto
 
 set_option maxRecDepth 10000 in
-theorem act_65 (env : Env) (I : List Char) (hE : EnvOk env I) (args : List ArgV) (h : GoodArgs I args) :
-    Safe env (userAction 65 args) (GoodVal I) := by
+theorem act_65 (env : Env) (I : List Char) (hE : EnvOk env I) (args : List ArgV) (h : GoodArgs env I args) :
+    Safe env (userAction 65 args) (GoodVal env I) := by
   unfold userAction
   simp only []
   sauto
 
 set_option maxRecDepth 10000 in
-theorem act_66 (env : Env) (I : List Char) (hE : EnvOk env I) (args : List ArgV) (h : GoodArgs I args) :
-    Safe env (userAction 66 args) (GoodVal I) := by
+theorem act_66 (env : Env) (I : List Char) (hE : EnvOk env I) (args : List ArgV) (h : GoodArgs env I args) :
+    Safe env (userAction 66 args) (GoodVal env I) := by
   unfold userAction
   simp only []
   sauto
 
 set_option maxRecDepth 10000 in
-theorem act_67 (env : Env) (I : List Char) (hE : EnvOk env I) (args : List ArgV) (h : GoodArgs I args) :
-    Safe env (userAction 67 args) (GoodVal I) := by
+theorem act_67 (env : Env) (I : List Char) (hE : EnvOk env I) (args : List ArgV) (h : GoodArgs env I args) :
+    Safe env (userAction 67 args) (GoodVal env I) := by
   unfold userAction
   simp only []
   sauto
 
 set_option maxRecDepth 10000 in
-theorem act_68 (env : Env) (I : List Char) (hE : EnvOk env I) (args : List ArgV) (h : GoodArgs I args) :
-    Safe env (userAction 68 args) (GoodVal I) := by
+theorem act_68 (env : Env) (I : List Char) (hE : EnvOk env I) (args : List ArgV) (h : GoodArgs env I args) :
+    Safe env (userAction 68 args) (GoodVal env I) := by
   unfold userAction
   simp only []
   sauto
 
 set_option maxRecDepth 10000 in
-theorem act_69 (env : Env) (I : List Char) (hE : EnvOk env I) (args : List ArgV) (h : GoodArgs I args) :
-    Safe env (userAction 69 args) (GoodVal I) := by
+theorem act_69 (env : Env) (I : List Char) (hE : EnvOk env I) (args : List ArgV) (h : GoodArgs env I args) :
+    Safe env (userAction 69 args) (GoodVal env I) := by
   unfold userAction
   simp only []
   sauto
 
 set_option maxRecDepth 10000 in
-theorem act_100 (env : Env) (I : List Char) (hE : EnvOk env I) (args : List ArgV) (h : GoodArgs I args) :
-    Safe env (userAction 100 args) (GoodVal I) := by
+theorem act_100 (env : Env) (I : List Char) (hE : EnvOk env I) (args : List ArgV) (h : GoodArgs env I args) :
+    Safe env (userAction 100 args) (GoodVal env I) := by
   unfold userAction
   simp only []
   sauto
@@ -692,8 +712,8 @@ set_option maxHeartbeats 2000000 in
 set_option maxRecDepth 100000 in
 /-- every label of the pinned table is the label of an action proved safe above -/
 theorem userAction_safe (env : Env) (I : List Char) (hE : EnvOk env I) (print label : Nat) (args : List ArgV)
-    (hl : printToLabel.lookup print = some label) (h : GoodArgs I args) :
-    Safe env (userAction label args) (GoodVal I) := by
+    (hl : printToLabel.lookup print = some label) (h : GoodArgs env I args) :
+    Safe env (userAction label args) (GoodVal env I) := by
   have hmem := lookup_mem hl
   unfold printToLabel at hmem
   simp only [List.mem_cons, Prod.mk.injEq, List.mem_nil_iff, or_false] at hmem
@@ -748,8 +768,8 @@ theorem userAction_safe (env : Env) (I : List Char) (hE : EnvOk env I) (print la
 
 /-! ### generic builders, composite actions, `evalAction` -/
 
-theorem evalPrim_safe (env : Env) (I : List Char) (p : Prim) (args : List ArgV) (h : GoodArgs I args) :
-    Safe env (evalPrim p args) (GoodVal I) := by
+theorem evalPrim_safe (env : Env) (I : List Char) (p : Prim) (args : List ArgV) (h : GoodArgs env I args) :
+    Safe env (evalPrim p args) (GoodVal env I) := by
   unfold evalPrim
   cases p with
   | arg i => exact safe_nth h i
@@ -791,10 +811,10 @@ theorem evalPrim_safe (env : Env) (I : List Char) (p : Prim) (args : List ArgV) 
     refine Safe.bind _ (safe_nth h j) (fun b hb => ?_)
     exact Safe.pure _ _ (by simp only [GoodVal]; exact ⟨ha, hb⟩)
 
-def GoodScope (I : List Char) (sc : Scope) : Prop :=
-  (∀ n v, sc.locs.lookup n = some v → Bd I v) ∧ (∀ n a, sc.temps.lookup n = some a → GoodArg I a)
+def GoodScope (env : Env) (I : List Char) (sc : Scope) : Prop :=
+  (∀ n v, sc.locs.lookup n = some v → Bd I v) ∧ (∀ n a, sc.temps.lookup n = some a → GoodArg env I a)
 
-theorem goodScope_empty (I : List Char) : GoodScope I {} := by
+theorem goodScope_empty (I : List Char) : GoodScope env I {} := by
   refine ⟨?_, ?_⟩ <;> intro n v h <;> simp [List.lookup] at h
 
 theorem lookup_cons_some {β} {n m : String} {v w : β} {l : List (String × β)}
@@ -805,7 +825,7 @@ theorem lookup_cons_some {β} {n m : String} {v w : β} {l : List (String × β)
   · right; exact h
 
 theorem evalLoc_safe (env : Env) (I : List Char) (sc : Scope) (args : List ArgV) (e : LocExpr)
-    (hs : GoodScope I sc) (h : GoodArgs I args) : Safe env (evalLoc sc args e) (Bd I) := by
+    (hs : GoodScope env I sc) (h : GoodArgs env I args) : Safe env (evalLoc sc args e) (Bd I) := by
   cases e with
   | param i start =>
     simp only [evalLoc]
@@ -827,7 +847,7 @@ theorem evalLoc_safe (env : Env) (I : List Char) (sc : Scope) (args : List ArgV)
     | some v => exact Safe.pure _ _ (hs.1 n v hl)
 
 theorem evalArg_safe (env : Env) (I : List Char) (sc : Scope) (args : List ArgV) (e : ArgExpr)
-    (hs : GoodScope I sc) (h : GoodArgs I args) : Safe env (evalArg sc args e) (GoodArg I) := by
+    (hs : GoodScope env I sc) (h : GoodArgs env I args) : Safe env (evalArg sc args e) (GoodArg env I) := by
   cases e with
   | param i =>
     simp only [evalArg]
@@ -846,8 +866,8 @@ theorem evalArg_safe (env : Env) (I : List Char) (sc : Scope) (args : List ArgV)
     | some v => exact Safe.pure _ _ (hs.1 n v hl)
 
 theorem runStmts_safe (env : Env) (I : List Char) (call : Nat → List ArgV → M Val)
-    (hcall : ∀ id args, GoodArgs I args → Safe env (call id args) (GoodVal I)) (args : List ArgV) (h : GoodArgs I args) :
-    ∀ (stmts : List Stmt) (sc : Scope), GoodScope I sc → Safe env (runStmts call args sc stmts) (GoodVal I) := by
+    (hcall : ∀ id args, GoodArgs env I args → Safe env (call id args) (GoodVal env I)) (args : List ArgV) (h : GoodArgs env I args) :
+    ∀ (stmts : List Stmt) (sc : Scope), GoodScope env I sc → Safe env (runStmts call args sc stmts) (GoodVal env I) := by
   intro stmts
   induction stmts with
   | nil => intro sc _; unfold runStmts; exact Safe.bad _ _ _ (by decide)
@@ -893,7 +913,7 @@ theorem runStmts_safe (env : Env) (I : List Char) (call : Nat → List ArgV → 
       exact hcall a vs hvs
 
 theorem evalAction_safe (env : Env) (I : List Char) (hE : EnvOk env I) (defs : Array ActionDef) :
-    ∀ (fuel id : Nat) (args : List ArgV), GoodArgs I args → Safe env (evalAction defs fuel id args) (GoodVal I) := by
+    ∀ (fuel id : Nat) (args : List ArgV), GoodArgs env I args → Safe env (evalAction defs fuel id args) (GoodVal env I) := by
   intro fuel
   induction fuel with
   | zero => intro id args _; unfold evalAction; exact Safe.bad _ _ _ (by decide)
